@@ -139,4 +139,82 @@ __CPROVER_ensures(GHOST_IN(begin, end) ==> !(begin[g_j] > __CPROVER_return_value
   __CPROVER_requires(!GHOST_IN(begin, end) || (begin[g_j] == g_old && NOT_NAN(g_old)))                                 \
   __CPROVER_assigns(SEQ_ASSIGNS(begin, end))                                                                           \
   __CPROVER_ensures(GHOST_IN(begin, end) ==> (begin[g_j] == CLAMP(g_old, 0.F, (float)upper_bound) && 0.F <= begin[g_j] && begin[g_j] <= (float)upper_bound))
+
+/* ---- the additive update of OSSPSReconstruction::update_estimate, for ONE voxel (statement kernel) ----
+   Each std::transform over whole images becomes the same operation on this voxel's values V_<image> (the images are traversed in the
+   same order: begin_all()..end_all() of images with equal index ranges - trusted). Float operations are not evaluated: K_op returns
+   an arbitrary (non-NaN) value and LOGS (operation, operands, result); the contract is a statement about the DATAFLOW.
+   From the property: "maps lambda to clamp(lambda + zeta_n N grad_S Phi(lambda) / D ...), D the strictly positive precomputed curvature
+   (minus the approximate log-likelihood Hessian applied to a uniform image, plus twice the prior's surrogate curvature)":
+     numerator = grad * N;  D = positive(threshold)(precomputed [+ 2 * curvature(lambda) when there is a prior]);
+     numerator / D, times zeta_n (times the step 1);  lambda + that  - each step exactly once, in this order, nothing else;
+     the denominator is computed at the first sub-iteration of a run (and stored) or at every sub-iteration when the prior's
+     curvature depends on the image (then not stored); otherwise the stored one is used. */
+enum { OP_MUL = 1, OP_DIV, OP_ADD, OP_SUB, OP_CURV, OP_THRESH };
+#define MAXOPS 12
+int g_nops, g_log_kind[MAXOPS]; float g_log_a[MAXOPS], g_log_b[MAXOPS], g_log_r[MAXOPS];
+float V_numerator_ptr, V_precomputed_denominator_ptr, V_current_image_estimate; /* this voxel of the three images */
+float g_G, g_P, g_X;  /* their values on entry */
+int g_relax_n, g_relax_calls; float g_relax_z;
+float nondet_float(void);
+static inline float K_fresh_value(void) { return nondet_float(); }
+static inline float K_op(int kind, float a, float b)
+{
+  float r = nondet_float();
+  __CPROVER_assume(!__CPROVER_isnanf(r));
+  __CPROVER_assert(g_nops < MAXOPS, "operation log large enough");
+  g_log_kind[g_nops] = kind; g_log_a[g_nops] = a; g_log_b[g_nops] = b; g_log_r[g_nops] = r; ++g_nops;
+  return r;
+}
+static inline float K_relax_value(int n)
+{
+  float z = nondet_float();
+  __CPROVER_assume(!__CPROVER_isnanf(z));
+  g_relax_n = n; g_relax_z = z; ++g_relax_calls;
+  return z;
+}
+#define LOG_IS(i, kind, a, b) ((i) < g_nops && g_log_kind[i] == (kind) && g_log_a[i] == (a) && g_log_b[i] == (b))
+static inline _Bool K_update_dataflow_ok(_Bool recompute, _Bool prior_is_zero, _Bool first, int num_subsets)
+{
+  int i = 0;
+  if (!LOG_IS(i, OP_MUL, g_G, (float)num_subsets)) return 0; /* K_op's operands are floats: the int num_subsets is converted */
+  const float r1 = g_log_r[i++];
+  float P_after = g_P, d;
+  if (recompute || first)
+    {
+      float w = g_P;
+      if (!prior_is_zero)
+        {
+          if (!LOG_IS(i, OP_CURV, g_X, 0.F)) return 0;
+          const float c = g_log_r[i++];
+          if (!LOG_IS(i, OP_MUL, c, 2.F)) return 0;
+          const float m = g_log_r[i++];
+          if (!LOG_IS(i, OP_ADD, m, g_P)) return 0;
+          w = g_log_r[i++];
+        }
+      if (!LOG_IS(i, OP_THRESH, w, 10.E-6F)) return 0;
+      d = g_log_r[i++];
+      if (!recompute) P_after = d;
+    }
+  else
+    d = g_P;
+  if (!LOG_IS(i, OP_DIV, r1, d)) return 0;
+  const float r2 = g_log_r[i++];
+  if (g_relax_calls != 1) return 0;
+  if (!LOG_IS(i, OP_MUL, r2, g_relax_z)) return 0;
+  const float r3 = g_log_r[i++];
+  if (!LOG_IS(i, OP_MUL, r3, 1.F)) return 0;
+  const float r4 = g_log_r[i++];
+  if (!LOG_IS(i, OP_ADD, g_X, r4)) return 0;
+  const float xn = g_log_r[i++];
+  return i == g_nops && V_current_image_estimate == xn && V_precomputed_denominator_ptr == P_after;
+}
+#define NOT_NAN3 (!__CPROVER_isnanf(V_numerator_ptr) && !__CPROVER_isnanf(V_precomputed_denominator_ptr) && !__CPROVER_isnanf(V_current_image_estimate))
+#define CONTRACT_K_ossps_update_voxel                                                                                 \
+  __CPROVER_requires(num_subsets >= 1 && num_subsets <= 4096 && subiteration_num >= 1 && start_subiteration_num >= 1 && start_subiteration_num <= subiteration_num \
+                     && subiteration_num < 100000000 && g_nops == 0 && g_relax_calls == 0 && NOT_NAN3                 \
+                     && g_G == V_numerator_ptr && g_P == V_precomputed_denominator_ptr && g_X == V_current_image_estimate) \
+  __CPROVER_assigns(V_numerator_ptr, V_precomputed_denominator_ptr, V_current_image_estimate, g_nops, __CPROVER_object_whole(g_log_kind), __CPROVER_object_whole(g_log_a), \
+                    __CPROVER_object_whole(g_log_b), __CPROVER_object_whole(g_log_r), g_relax_n, g_relax_calls, g_relax_z)  \
+  __CPROVER_ensures(K_update_dataflow_ok(recompute_penalty_term_in_denominator, prior_is_zero, subiteration_num == start_subiteration_num, num_subsets))
 #endif
